@@ -38,6 +38,7 @@ def call(I, c, e, env):
     name = c.get("name")
     tr = tname(c)
     args_e = e["args"]
+    I.cur_env = env
     # --- compound assignment through operator traits
     if (tr, name) in ASSIGN_OPS:
         val = I.eval(args_e[1], env)
@@ -183,6 +184,7 @@ def size_of(I, seq):
 def call_values(I, c, args, e=None, env=None):
     name = c.get("name")
     tr = tname(c)
+    I.raw_args = list(args)
     args = [deref_val(I, a, env) if env is not None else a for a in args]
     path = c.get("path", "")
     iself = c.get("impl_self") or ""
@@ -323,7 +325,8 @@ def call_values(I, c, args, e=None, env=None):
             return Opt(True, seq.items[-1] if name == "last" else seq.items[0])
         if hasattr(seq, "m_last"):
             return Opt(True, seq.m_last(name))
-        raise Undecided("%s() of a symbolic sequence" % name)
+        I.assumptions.append("%s(): the sequence is assumed non-empty" % name)
+        return Opt(True, seq.at(name))
     if name == "from_fn" and "array" in path:
         clo = args[0]
         n = array_len_class(I, e, c)
@@ -372,10 +375,23 @@ def call_values(I, c, args, e=None, env=None):
         if gs:
             raise Undecided("product over a restricted range")
         return Num(Expr.atom(("prod", k, s_.classes[0], x.expr)))
+    if name == "filter" and isinstance(args[0], Arr) and isinstance(args[1], (Closure, FnItem)):
+        s_, clo = args[0], args[1]
+        probe = I.apply(clo, [s_.at("§")])
+        if not isinstance(probe, Cond):
+            raise Undecided("filter predicate is not a condition")
+        cls = "{§∈%s | %s}" % (s_.classes[0], probe.key())
+        return Arr((cls,), lambda k, _s=s_: _s.at(k), name="filter")
+    if name == "last" and isinstance(args[0], Arr) and not isinstance(args[0], ListV) and not hasattr(args[0], "m_last"):
+        I.assumptions.append("last(): the sequence is assumed non-empty")
+        return Opt(True, args[0].at("last"))
     if name == "next" and isinstance(args[0], Arr) and not isinstance(args[0], ListV):
         I.assumptions.append("next(): the sequence is assumed non-empty")
         return Opt(True, args[0].at("first"))
     if name == "count" and isinstance(args[0], Arr):
+        c0 = args[0].classes[0]
+        if isinstance(c0, str) and c0.startswith("{"):
+            return Num(Expr.atom(("call", "count", c0)))
         return size_of(I, args[0])
     if name in ("rev", "rfold", "next_back", "skip", "step_by", "take", "chain", "filter", "flat_map", "take_while", "skip_while", "sorted"):
         raise Undecided("iterator adapter `%s` is outside the summarisation model" % name, e.get("span") if e else None)
